@@ -29,7 +29,7 @@ Print Assumptions C18_dec_canonical.
 
 (** and the value is a valid identifier (out-of-range fields refused). *)
 Theorem C18_dec_validates : forall k bs i,
-  bytes_ok bs = true -> k <> KRnd -> dec k bs = Some i -> validate k i = true.
+  bytes_ok bs = true -> dec k bs = Some i -> validate k i = true.
 Proof. exact dec_validates. Qed.
 Print Assumptions C18_dec_validates.
 
@@ -44,5 +44,5 @@ Print Assumptions C18_enc_injective.
 Theorem C18_nonvacuous :
   new KSample 1024 (mkid 7 1023 1023 []) <> None /\ new KRnd 4 (mkid 7 3 0 ns_example) <> None /\
   new KRange 512 (mkid 7 262143 262144 []) <> None /\ new KNd 0 (mkid 9 0 0 ns_example) <> None /\
-  new KRangeV0 255 (mkid 7 65000 65025 []) <> None.
+  new KRangeV0 512 (mkid 7 65000 65535 []) <> None.
 Proof. exact roundtrip_nonvacuous. Qed.
